@@ -179,3 +179,6 @@ def nontrivial(line):
 
 def classify(line, what):
     return "c09-label" if "label" in what else "c09-route"
+
+
+norm_model = norm_impl
